@@ -60,10 +60,22 @@ def r3_error_position(ctx, rule="C07.R3"):
             ok = bool(false_t) and bool(idx_blocks) and all(body.dominates(false_t[0], b) for b in idx_blocks)
     ctx.decide(ok, rule, rule + ":index-behind-not-eof", pos.loc, "row_col[index] only when !is_eof()",
                "StringView::position indexes row_col without the !is_eof() guard dominating it")
-    e = ctx.anchor_method("StringView", "eof_row_col")
-    guards = [b for b, t in e.body.calls() if (t.get("cpath") or "").endswith("is_empty")]
+    # the end-of-input position is computed on the eof side of position() - inline or in the private
+    # method called there (found by the call, not by its name): it must guard the empty text
+    eof_side = set()
+    if len(eof_bb) == 1:
+        sw = body.term(body.term(eof_bb[0])["t"])
+        if sw["k"] == "switch":
+            true_t = [tg for v, tg in sw["ts"] if v != 0] or [sw["else"]]
+            false_t = [tg for v, tg in sw["ts"] if v == 0]
+            tgt = sw["else"] if false_t else true_t[0]
+            eof_side = {x for x in body.reachable(tgt) if body.dominates(tgt, x)}
+    cands = [pos] + [prog.fns[mir.callee_of(t)] for b, t in body.calls()
+                     if b in eof_side and mir.callee_of(t) in prog.fns and prog.fns[mir.callee_of(t)].crate == "rusty_parser"]
+    guards = [(g, b) for g in cands for b, t in g.body.calls() if (t.get("cpath") or "").endswith("is_empty")]
+    e = guards[0][0] if guards else pos
     ctx.decide(len(guards) == 1, rule, rule + ":eof-position-non-empty-guard", e.loc, "is_empty() guard",
-               "eof_row_col no longer guards the empty text")
+               "the end-of-input position no longer guards the empty text")
     pp = [g for g in prog.fns.values() if g.name == "program_parser_p" and g.crate == "rusty_parser" and g.kind == "fn"]
     if len(pp) != 1:
         raise CheckError("anchor program_parser_p")
